@@ -59,9 +59,10 @@ pub fn gen_f64(rng: &mut Rng) -> u64 {
     }
 }
 
-/// finite, non-NaN doubles of moderate size (for coordinates)
+/// non-NaN doubles (for coordinates): mostly finite, sometimes an infinity
 pub fn gen_coord(rng: &mut Rng) -> u64 {
-    match rng.below(8) {
+    match rng.below(9) {
+        8 => if rng.chance(1, 2) { f64::INFINITY.to_bits() } else { f64::NEG_INFINITY.to_bits() },
         0 => 0f64.to_bits(),
         1 => (-0f64).to_bits(),
         2 => (rng.range(-1000000, 1000000) as f64 / 1000.0).to_bits(),
@@ -79,7 +80,8 @@ pub fn gen_coord(rng: &mut Rng) -> u64 {
 }
 
 pub fn gen_f32(rng: &mut Rng) -> u32 {
-    match rng.below(8) {
+    match rng.below(9) {
+        8 => if rng.chance(1, 2) { f32::INFINITY.to_bits() } else { f32::NEG_INFINITY.to_bits() },
         0 => 0f32.to_bits(),
         1 => (-0f32).to_bits(),
         2 => 1f32.to_bits(),
@@ -167,6 +169,8 @@ pub fn gen_val(rng: &mut Rng, dt: &DT, coord: bool) -> Val {
     match dt {
         DT::F32(..) => Val::F(gen_f32(rng)),
         DT::F64(..) => Val::D(if coord { gen_coord(rng) } else { gen_coord(rng) }),
+        DT::I(a, b) if a > b => Val::I(*rng.pick(&[*a, *b, b / 2 + a / 2])),
+        DT::S(a, b, ..) if a > b => Val::S(*rng.pick(&[*a, *b, b / 2 + a / 2])),
         DT::I(a, b) => Val::I(match rng.below(5) {
             0 => *a,
             1 => *b,
@@ -259,8 +263,33 @@ impl<'a> Gen<'a> {
                 p.swap(i, j);
             }
         }
+        if !p.is_empty() && rng.chance(1, 8) {
+            // a second record with the name of an existing one (often of another type)
+            let k = rng.below(p.len() as u64) as usize;
+            let name = p[k].name.clone();
+            let dt = match rng.below(3) {
+                0 => p[k].dt.clone(),
+                1 => DT::F64(None, None),
+                _ => gen_real_dt(rng, true),
+            };
+            p.push(Rec { name, dt });
+        }
         if !valid {
-            match rng.below(9) {
+            match rng.below(10) {
+                9 => {
+                    // a reversed integer range (the reader rejects such a prototype)
+                    let dt = if rng.chance(1, 2) { DT::I(10, 5) } else { DT::S(1, 0, 1f64.to_bits(), 0f64.to_bits()) };
+                    match p.iter_mut().find(|r| matches!(&r.dt, DT::I(a, b) | DT::S(a, b, ..) if a < b) && !r.name.is("cartesianInvalidState") && !r.name.is("sphericalInvalidState")) {
+                        Some(r) if rng.chance(1, 2) => {
+                            r.dt = match &r.dt {
+                                DT::I(a, b) => DT::I(*b, *a),
+                                DT::S(a, b, s, o) => DT::S(*b, *a, *s, *o),
+                                d => d.clone(),
+                            }
+                        }
+                        _ => p.push(std("timeStamp", dt)),
+                    }
+                }
                 0 => {
                     p.retain(|r| !r.name.is("cartesianY") && !r.name.is("sphericalElevation"));
                 }
@@ -646,7 +675,13 @@ pub fn oracle_program(sink: &mut Sink, line: &str, prog: &Program, run: &Run) {
     let exp = expected_scene(prog, &run.results);
     let maxp = exp.clouds.iter().map(|c| c.points.len()).max().unwrap_or(0) + 5;
     match guarded(|| read_scene(&run.file, maxp)) {
-        Err(p) => sink.fail("C08", "reader/panic-on-written-file", line, &format!("reading the written file panicked: {p}")),
+        Err(p) => {
+            // a written file on which the reader panics fails every round-trip property at once
+            sink.fail("C08", "reader/panic-on-written-file", line, &format!("reading the written file panicked: {p}"));
+            for t in ["C01", "C04", "C06", "C14"] {
+                sink.fail(t, "roundtrip/panic-on-written-file", line, &format!("reading the written file panicked: {p}"));
+            }
+        }
         Ok(Err(e)) => {
             let sig = if e.contains("blob()") {
                 ("C06", "blob/read-back".to_string())
@@ -664,6 +699,9 @@ pub fn oracle_program(sink: &mut Sink, line: &str, prog: &Program, run: &Run) {
                 ("C10", format!("writer/ok-but-unreadable/{cause}"))
             };
             sink.fail(sig.0, &sig.1, line, &format!("all calls succeeded but the file does not read back: {e}"));
+            for t in ["C01", "C04"] {
+                sink.fail(t, &format!("roundtrip/unreadable/{}", sig.1), line, &format!("all calls succeeded but the file does not read back: {e}"));
+            }
         }
         Ok(Ok(got)) => {
             for (prop, sig, detail) in compare(&exp, &got) {
@@ -696,8 +734,9 @@ pub fn roundtrip_diffs(prog: &Program, run: &Run) -> Vec<Diff> {
     let exp = expected_scene(prog, &run.results);
     let maxp = exp.clouds.iter().map(|c| c.points.len()).max().unwrap_or(0) + 5;
     match guarded(|| read_scene(&run.file, maxp)) {
-        Err(p) => vec![("C08", "unreadable/panic".into(), format!("reading panicked: {p}"))],
-        Ok(Err(e)) => vec![("C16", "unreadable/error".into(), format!("the file does not read back: {e}"))],
+        // a written file that cannot be read back fails every round-trip property at once
+        Err(p) => ["C08", "C01", "C04", "C06"].iter().map(|t| (*t, "unreadable/panic".to_string(), format!("reading panicked: {p}"))).collect(),
+        Ok(Err(e)) => ["C16", "C01", "C04", "C06"].iter().map(|t| (*t, "unreadable/error".to_string(), format!("the file does not read back: {e}"))).collect(),
         Ok(Ok(got)) => {
             let mut d = compare(&exp, &got);
             if let Ok(mut r) = e57::E57Reader::new(std::io::Cursor::new(run.file.clone())) {
